@@ -307,11 +307,13 @@ fn programs() -> Vec<(&'static str, Option<String>)> {
         ("ends in an error", Some("10 PRINT \"a\"\n20 PRINT 1/0\n".into())),
         ("loops forever", Some("10 X = X + 1\n20 GOTO 10\n".into())),
         ("stops", Some("10 PRINT 1\n20 STOP\n30 PRINT 2\n".into())),
+        ("last line untokenizable", Some("10 PRINT 1\n20 PRINT \"WORLD\n".into())),
+        ("only line untokenizable, no final newline", Some("10 %".into())),
     ]
 }
 
 fn alphabet() -> Vec<PEv> {
-    let mut v: Vec<PEv> = ["PRINT 1", "10 PRINT 2", "RUN", "NEW", "LIST", "X=", "%", "5", "x", "💥", "", "CONT", "20 INPUT Q"].iter().map(|t| PEv::Submit(t.to_string())).collect();
+    let mut v: Vec<PEv> = ["PRINT 1", "10 PRINT 2", "RUN", "NEW", "LIST", "X=", "%", "5", "x", "💥", "", "CONT", "20 INPUT Q", "TRACE"].iter().map(|t| PEv::Submit(t.to_string())).collect();
     v.push(PEv::Break);
     v.push(PEv::Tick);
     v
